@@ -16,7 +16,10 @@
 //	other callers: PropFail key concurrent-<op>, the whole scenario is the replay (one `conc` line).
 //
 // Job forms (tokens): inv <fe> | finv <fe> | fmul <fe> <fe> | setxyz <xyz> | add3 <xyz> <xyz> | gen <k> |
-// ecmult <xyz> <na> <ng> | bm <k32> | bma <pub> <k32> | mul <pub> <k32> | parse <pub33> | decomp <x32> <odd>.
+// ecmult <xyz> <na> <ng> | bm <k32> | bma <pub> <k32> | mul <pub> <k32> | parse <pub33> | decomp <x32> <odd> |
+// dbl <xyz> | negj <xyz> | addxy <xyz> <xy> | negxy <xy> (XY.Neg + IsValid + GetPublicKey) | setxo <fe> <odd> |
+// xonly <x32> (ParseXOnlyPubkey) | sqrt <fe> | verify <pub> <der> <msg32> <true|false> (secp.Verify = ParsePubkey +
+// Signature.Verify, the ECDSA caller of ECmult / InvVar in sig.go; signature made by the math/big reference).
 // Line form: conc <family> <rounds> <job> ; <job> ; … | <job> ; …      (workers separated by " | ").
 package main
 
@@ -164,6 +167,67 @@ func concRun(j concJob) (line string) {
 		y := make([]byte, 32)
 		secp.DecompressPoint(mustHex(j[1]), j[2] == "1", y)
 		return hex.EncodeToString(y)
+	case "dbl", "negj":
+		ga := mustXYZ(j[1:5]).goXYZ()
+		var out secp.XYZ
+		if j[0] == "dbl" {
+			ga.Double(&out)
+		} else {
+			ga.Neg(&out)
+		}
+		p, on := xyzOf(&out).ref()
+		if !on {
+			return "off-curve " + xyzOf(&out).String()
+		}
+		return ptStr(p)
+	case "addxy":
+		ga := mustXYZ(j[1:5]).goXYZ()
+		b, ok := parseXY(j[5:8])
+		if !ok {
+			harnessBug("bad xy in a conc job")
+		}
+		gb := b.goXY()
+		var out secp.XYZ
+		ga.AddXY(&out, &gb)
+		p, on := xyzOf(&out).ref()
+		if !on {
+			return "off-curve " + xyzOf(&out).String()
+		}
+		return ptStr(p)
+	case "negxy":
+		b, ok := parseXY(j[1:4])
+		if !ok {
+			harnessBug("bad xy in a conc job")
+		}
+		gb := b.goXY()
+		var out secp.XY
+		gb.Neg(&out)
+		if !out.IsValid() {
+			return "invalid"
+		}
+		buf := make([]byte, 65)
+		out.GetPublicKey(buf)
+		return hex.EncodeToString(buf[1:])
+	case "setxo":
+		x := mustFe(j[1]).field()
+		var out secp.XY
+		out.SetXO(&x, j[2] == "1")
+		return hex.EncodeToString(observe(limbsOf(&out.X))) + hex.EncodeToString(observe(limbsOf(&out.Y)))
+	case "xonly":
+		var key secp.XY
+		if !key.ParseXOnlyPubkey(mustHex(j[1])) {
+			return "false"
+		}
+		out := make([]byte, 65)
+		key.GetPublicKey(out)
+		return "true " + hex.EncodeToString(out[1:])
+	case "sqrt":
+		x := mustFe(j[1]).field()
+		var out secp.Field
+		x.Sqrt(&out)
+		return hex.EncodeToString(observe(limbsOf(&out)))
+	case "verify":
+		return strconv.FormatBool(secp.Verify(mustHex(j[1]), mustHex(j[2]), mustHex(j[3])))
 	}
 	harnessBug("unknown conc job " + j[0])
 	return ""
@@ -226,8 +290,86 @@ func concWant(j concJob) string {
 			return "none"
 		}
 		return hex.EncodeToString(b32(p.y))
+	case "dbl":
+		a, _ := mustXYZ(j[1:5]).ref()
+		return ptStr(refDbl(a))
+	case "negj":
+		a, _ := mustXYZ(j[1:5]).ref()
+		return ptStr(refNeg(a))
+	case "addxy":
+		a, _ := mustXYZ(j[1:5]).ref()
+		b, _ := parseXY(j[5:8])
+		bp, _ := b.ref()
+		return ptStr(refAdd(a, bp))
+	case "negxy":
+		b, _ := parseXY(j[1:4])
+		bp, _ := b.ref()
+		return ptStr(refNeg(bp))
+	case "setxo", "xonly":
+		var x *big.Int
+		odd := false
+		if j[0] == "setxo" {
+			x, odd = modP(mustFe(j[1]).val()), j[2] == "1"
+		} else {
+			x = new(big.Int).SetBytes(mustHex(j[1]))
+		}
+		p, ok := refLift(x, odd)
+		if !ok {
+			return "false"
+		}
+		if j[0] == "xonly" {
+			return "true " + ptStr(p)
+		}
+		return ptStr(p)
+	case "sqrt":
+		// Field.Sqrt is a^((p+1)/4): that root, whichever of the two it is
+		e := new(big.Int).Rsh(new(big.Int).Add(refP, big1), 2)
+		return hex.EncodeToString(b32(new(big.Int).Exp(modP(mustFe(j[1]).val()), e, refP)))
+	case "verify":
+		return j[4] // decided when the job was made: the math/big reference made (or spoiled) the signature
 	}
 	return "?"
+}
+
+// refDer: DER of an ECDSA signature (r, s), minimal positive integers
+func refDer(rr, ss *big.Int) []byte {
+	enc := func(v *big.Int) []byte {
+		b := v.Bytes()
+		if len(b) == 0 || b[0]&0x80 != 0 {
+			b = append([]byte{0}, b...)
+		}
+		return append([]byte{2, byte(len(b))}, b...)
+	}
+	body := append(enc(rr), enc(ss)...)
+	return append([]byte{0x30, byte(len(body))}, body...)
+}
+
+// refSignJob: an ECDSA signature by math/big alone (key d, nonce k, message z); spoiled = the message differs by one
+func refSignJob(g *vlib.Rng) concJob {
+	for {
+		d := new(big.Int).Mod(randScalar(g), refN)
+		k := new(big.Int).Mod(randScalar(g), refN)
+		z := randScalar(g)
+		if d.Sign() == 0 || k.Sign() == 0 {
+			continue
+		}
+		R := refMul(k, refG)
+		rr := new(big.Int).Mod(R.x, refN)
+		ss := new(big.Int).Mul(rr, d)
+		ss.Add(ss, z)
+		ss.Mul(ss, new(big.Int).ModInverse(k, refN))
+		ss.Mod(ss, refN)
+		if rr.Sign() == 0 || ss.Sign() == 0 {
+			continue
+		}
+		good := g.Chance(3, 4)
+		msg := new(big.Int).Set(z)
+		if !good {
+			msg.Xor(msg, big.NewInt(1))
+		}
+		return concJob{"verify", hex.EncodeToString(sec1(refMul(d, refG), g.Bool())), hex.EncodeToString(refDer(rr, ss)),
+			hex.EncodeToString(b32(msg)), strconv.FormatBool(good)}
+	}
 }
 
 func concDescribe(j concJob) string {
@@ -255,7 +397,9 @@ func concJobOf(g *vlib.Rng, family string, edges []*big.Int) concJob {
 		"inv":   {"inv", "inv", "inv", "setxyz", "finv"},
 		"api":   {"bm", "bm", "bma", "mul"},
 		"group": {"setxyz", "add3", "gen", "ecmult", "parse", "decomp", "fmul"},
-		"mixed": {"inv", "setxyz", "bm", "bma", "mul", "gen", "ecmult", "add3", "parse", "decomp", "fmul", "finv"},
+		"mixed": {"inv", "setxyz", "bm", "bma", "mul", "gen", "ecmult", "add3", "parse", "decomp", "fmul", "finv", "verify", "dbl", "addxy", "xonly"},
+		// the remaining entry points of the group layer and the ECDSA caller in sig.go
+		"entry": {"dbl", "negj", "addxy", "negxy", "setxo", "xonly", "sqrt", "verify", "verify", "inv"},
 	}[family]
 	for {
 		switch kinds[g.Intn(len(kinds))] {
@@ -296,6 +440,43 @@ func concJobOf(g *vlib.Rng, family string, edges []*big.Int) concJob {
 				continue
 			}
 			return concJob{"decomp", hex.EncodeToString(b32(p.x)), b01(g.Bool())}
+		case "dbl":
+			return append(concJob{"dbl"}, strings.Fields(jacWide(g, randPoint(g), 8, 8, 8).String())...)
+		case "negj":
+			return append(concJob{"negj"}, strings.Fields(jacWide(g, randPoint(g), 8, 8, 8).String())...)
+		case "addxy":
+			p := randPoint(g)
+			q := randPoint(g)
+			switch g.Intn(4) {
+			case 0:
+				q = p
+			case 1:
+				q = refNeg(p)
+			}
+			return append(append(concJob{"addxy"}, strings.Fields(jac(g, p, true).String())...), strings.Fields(aff(g, q, true).String())...)
+		case "negxy":
+			p := randPoint(g)
+			if p.inf {
+				continue
+			}
+			return append(concJob{"negxy"}, strings.Fields(aff(g, p, true).String())...)
+		case "setxo":
+			p := randPoint(g)
+			if p.inf {
+				continue
+			}
+			return concJob{"setxo", denorm(feOfBig(p.x), uint64(g.Intn(2))).String(), b01(g.Bool())}
+		case "xonly":
+			p := randPoint(g)
+			if p.inf {
+				continue
+			}
+			return concJob{"xonly", hex.EncodeToString(b32(p.x))}
+		case "sqrt":
+			v := modP(randScalar(g))
+			return concJob{"sqrt", denorm(feOfBig(modP(new(big.Int).Mul(v, v))), uint64(g.Intn(4))).String()}
+		case "verify":
+			return refSignJob(g)
 		}
 	}
 }
@@ -484,6 +665,7 @@ func concStreams(g *vlib.Rng) {
 		{"api", 2, r.N(40, 600)}, {"api", 8, r.N(40, 600)}, {"api", 16, r.N(25, 400)},
 		{"group", 4, r.N(30, 400)}, {"group", 8, r.N(30, 400)},
 		{"mixed", 2, r.N(40, 500)}, {"mixed", 8, r.N(40, 500)}, {"mixed", 16, r.N(25, 300)},
+		{"entry", 4, r.N(40, 500)}, {"entry", 12, r.N(30, 400)},
 	}
 	for i, p := range plan {
 		lists := make([][]concJob, p.workers)
@@ -493,7 +675,7 @@ func concStreams(g *vlib.Rng) {
 			}
 		}
 		checkConc(p.family, "conc", lists, p.rounds)
-		if p.family == "inv" || p.family == "mixed" {
+		if p.family == "inv" || p.family == "mixed" || p.family == "entry" {
 			tieSched(g, lists)
 		}
 		if i == 0 {
